@@ -25,7 +25,7 @@ func init() {
 			"oracle: reference model of NotInAudience / OneTimeUse / ProxyRestriction; distinct = shape hash (restriction pattern, configured URI kind, OTU, proxy, n, placement, perturbation, outcome)",
 		Directed:    c06Directed,
 		Run:         c06Run,
-		MustHit:     []string{"restrictions=0", "restrictions>=2", "empty_restriction", "near_miss", "match_then_miss", "miss_then_match", "otu", "proxy", "configured_empty", "forwarded_other_sp", "duplicate", "recompress", "clock_before_not_before", "clock_after_conditions_end"},
+		MustHit:     []string{"restrictions=0", "restrictions>=2", "empty_restriction", "near_miss", "match_then_miss", "miss_then_match", "otu", "proxy", "configured_empty", "forwarded_other_sp", "duplicate", "recompress", "clock_before_not_before", "clock_after_conditions_end", "long_audience_list"},
 		RandomRuns:  map[string]int{"quick": 8000, "thorough": 80000},
 		Assumptions: []string{"comparison of audience values is byte-exact, as the property states"},
 	})
@@ -46,6 +46,9 @@ func c06Aud(kind string, self string) string {
 		return self + "/"
 	case "space":
 		return " " + self + " "
+	}
+	if strings.HasPrefix(kind, "filler") {
+		return "https://" + kind + ".example/meta"
 	}
 	return ""
 }
@@ -100,6 +103,22 @@ func c06Run(r *core.Run) {
 	extra := t.Int(4, "c06.extra")
 	otu := extra&1 != 0
 	proxy := extra&2 != 0
+	if ll := t.Int(12, "c06.longlist"); ll >= 1 && ll <= 2 && len(restr) > 0 {
+		// a long list of other SPs in front of the drawn audiences of the first / last restriction
+		// (federation-wide assertions)
+		nfill := 30 + t.Int(70, "c06.longlist.n")
+		fill := make([]string, nfill)
+		for k := range fill {
+			fill[k] = fmt.Sprintf("filler%d", k)
+		}
+		i := 0
+		if ll == 2 {
+			i = len(restr) - 1
+		}
+		restr[i] = append(fill, restr[i]...)
+		kindsDesc[i] = fmt.Sprintf("[%d-fillers,%s", nfill, kindsDesc[i][1:])
+		r.Probe("long_audience_list")
+	}
 
 	s := NewStd(r)
 	s.DrawLive()
